@@ -57,8 +57,8 @@ var tCfgsAwkward = []TCfg{{3, 1, 1, 7}, {1, 4, 3, 11}}
 // tTree enumerates every well-formed token string of length L with at most D failing-start tokens.
 func tTree(r *ev.Run, prefix string, cfgs []TCfg, L, D int) {
 	type job struct {
-		cfg  TCfg
-		pre  []string
+		cfg TCfg
+		pre []string
 	}
 	var jobs []job
 	for _, c := range cfgs {
